@@ -38,3 +38,8 @@ def run(ctx):
     S.r21_typestate(ctx, sc)
     # an admitted bounded run must actually be carried out: no wake-up of the run thread may be lost (shared rule with C04)
     S.r44_wait_clear(ctx, sc)
+    # the run loop publishes TIME_CHANGED between popping an event and executing it: a delivery that can block (a listener re-entering the
+    # producer) or skip subscribers stops the run with the event already taken (delivery rule shared with C08)
+    from . import c08
+    ctx.uses('pubsub')
+    c08.r81(ctx)
